@@ -249,4 +249,6 @@ def run(ck, tier):
     ck.guard(_own.rule_instance_owned, ck, cx, 'R7', _own.FRAMERS, 'framing state is no longer private to a connection', 4)
     ck.guard(r8_handler_bound_to_its_server, ck, cx)
     ck.guard(r9_read_size_covers_an_adu, ck, cx)
+    from .c09 import r13_listen_only_stays_unsendable
+    ck.guard(r13_listen_only_stays_unsendable, ck, cx, 'R10')
     return cx.idx
